@@ -142,12 +142,40 @@ impl StaticOrDynamic {
         }
     }
 
-    pub fn replace(mut str: String, variables: &[(String, String)]) -> String {
-        for (name, value) in variables {
-            str = str.replace(format!("@{name}").as_str(), value.as_str())
+    pub fn replace(str: String, variables: &[(String, String)]) -> String {
+        // One left-to-right pass: every `@` is followed by at most one variable name, the longest one,
+        // and a substituted value is never scanned again (successive str::replace calls substituted a
+        // value containing `@other` a second time and could glue two adjacent references together).
+        let mut result = String::with_capacity(str.len());
+        let mut rest = str.as_str();
+
+        while let Some(position) = rest.find('@') {
+            result.push_str(&rest[..position]);
+
+            let after = &rest[position + 1..];
+            let mut longest: Option<&(String, String)> = None;
+
+            for variable in variables {
+                if after.starts_with(variable.0.as_str()) && longest.is_none_or(|current| variable.0.len() > current.0.len()) {
+                    longest = Some(variable);
+                }
+            }
+
+            match longest {
+                Some((name, value)) => {
+                    result.push_str(value);
+                    rest = &after[name.len()..];
+                }
+                None => {
+                    result.push('@');
+                    rest = after;
+                }
+            }
         }
 
-        str
+        result.push_str(rest);
+
+        result
     }
 
     pub fn compile(&self) -> bool {
